@@ -71,7 +71,7 @@ def run(ctx, rep, tier):
     rep.check(not any(isinstance(n, ast.Call) and isinstance(n.func, ast.Attribute) and (n.func.attr.startswith("_optimize_") or n.func.attr in ("append_after", "add")) for st in later for n in ast.walk(st)),
               "C04.a", "DfaCompileCtx.compile", "no rewriting after verification", "the machine is modified after the cycle check")
     vf = model.func("DfaCompileCtx._verify_fallthrough_loop")
-    check_refusal(rep, model, "C04.a", "DfaCompileCtx._verify_fallthrough_loop", r"^state in visited$", "a fall-through path returning to its own state is refused",
+    check_refusal(rep, model, "C04.a", "DfaCompileCtx._verify_fallthrough_loop", r"^(state|\(state, 0\)) in visited$", "a fall-through path returning to its own state is refused",
                   "a non-consuming cycle found by the check must be refused")
     vs = ast.unparse(vf)
     start_kinds = _cycle_check_starts(vf)
@@ -178,32 +178,85 @@ def run(ctx, rep, tier):
     aux = model.func("DfaCompileCtx._verify_fallthrough_loop.aux")
     asrc = ast.unparse(aux)
     old_walk = "real_target = x[transition.on_values]" in asrc and "real_target.is_fallthrough and consider(real_target)" in asrc
-    new_walk = "steps = x.transitions" in asrc and "real_target = x[symbols]" in asrc and "steps = [real_target] if real_target and stays_in_place(real_target) else []" in asrc and \
-        ("for step in steps:\n        for target in leads_to(step):\n            if target not in visited:\n                visited.add(target)\n                aux(target)" in asrc or
-         "for step in steps:\n        if overflowing and makes_room(step):\n            continue\n        for target in leads_to(step):\n            if target not in visited:\n                visited.add(target)\n                aux(target)" in asrc)
+    AUX = "DfaCompileCtx._verify_fallthrough_loop.aux"
+    # the walk as it stands since F-117 / F-118: one symbol at a time, every successor visited with the room known behind the step
+    new_walk = model.has(AUX, "steps = x.transitions") and model.has(AUX, "real_target = x[symbol]") and \
+        model.has(AUX, "steps = [real_target] if real_target and stays_in_place(real_target) else []") and \
+        model.has(AUX, "for step in steps:\n    behind = room_behind(step, room) if overflowing else 0\n    for target in leads_to(step):\n        visit(target, symbol, behind)")
+    vis = model.functions.get("DfaCompileCtx._verify_fallthrough_loop.visit")
+    new_walk = new_walk and vis is not None and "\n".join(ast.unparse(x) for x in strip_doc(vis.body)) == \
+        "if (target, room) not in visited:\n    visited.add((target, room))\n    aux(target, symbol, room)"
     rep.check("isinstance(x, DFConditionPoint)" in asrc and (old_walk or new_walk), "C04.d", "DfaCompileCtx._verify_fallthrough_loop.aux",
-              "condition points: every branch; plain states: the transition taken for the same symbols, if it does not consume; every successor is walked", "cycle walk changed")
+              "condition points: every branch; plain states: the transition taken for the same symbol, if it does not consume; every successor is walked", "cycle walk changed")
+
+    # d4 (F-117): the unconsumed byte is ONE byte - each symbol of the starting transition is walked on its own
+    rep.rule("C04.d4", "the cycle check walks each symbol of a non-consuming transition on its own (a set lookup answers None as soon as a state on the way treats part of the "
+                       "set differently: asked about all symbols at once the walk ends there and the cycle for one of them is missed)")
+    VF = "DfaCompileCtx._verify_fallthrough_loop"
+    per_symbol = [n for n in ast.walk(vf) if isinstance(n, ast.For) and ast.unparse(n.iter) == "symbols" and isinstance(n.target, ast.Name)]
+    ok4 = False
+    if len(per_symbol) == 1:
+        loop = per_symbol[0]
+        sym = loop.target.id
+        body = ast.unparse(ast.Module(body=loop.body, type_ignores=[]))
+        resets = any(isinstance(st, ast.Assign) and ast.unparse(st.targets[0]) == "visited" and ast.unparse(st.value) == "set()" for st in loop.body)
+        refuses = any(isinstance(n, ast.Raise) for st in loop.body for n in ast.walk(st))
+        single = re.search(r"\bx\[(\w+)\]", asrc)
+        ok4 = resets and refuses and f"aux(state, {sym}, 0)" in body and single is not None and single.group(1) == aux.args.args[1].arg and "x[symbols]" not in asrc
+    rep.check(ok4, "C04.d4", VF, "for each symbol: fresh visited set, walk with that symbol alone, refusal inside the loop",
+              "the walk asks the states on the way about the whole symbol list of the starting transition at once (`x[symbols]`): DFState.__getitem__ answers None when a state splits "
+              "the set, the walk stops, and `loop { try { /[^qr]/; } catch (nomatch) { case { \"r\" -> { } else -> { } } } }` is accepted - feed() never returns on a q")
 
     # d2 (F-25, repaired): the redirect of an appended match that does not fit does not consume although its transition does
     rep.rule("C04.d2", "the cycle check follows the non-consuming redirect of an appended match that overflows (a consuming transition whose AppendTo may leave for the out-of-space handler); only a step that deletes that buffer ends the walk")
     VF = "DfaCompileCtx._verify_fallthrough_loop"
     okd2 = model.has(VF, "overflowing = [sub for action in transition.actions for sub in action.all_subactions() if isinstance(sub, AppendTo)]\nif not overflowing:\n    continue\nsymbols = transition.on_values") and \
-        model.has(VF, "if overflowing:\n    for handler in [target for append in overflowing for target in append.get_target_override_targets()]:\n        if handler not in visited:\n            visited.add(handler)\n            aux(handler)\nelse:\n    aux(state)") and \
-        "if overflowing and makes_room(step):\n            continue" in asrc
-    mr = model.functions.get(VF + ".makes_room")
-    okmr = mr is not None and ast.unparse(mr.body[-1]) == "return any((isinstance(sub, DeleteBuf) and all((sub.into_storage is append.into_storage for append in overflowing)) for action in step.actions for sub in action.all_subactions()))"
+        model.has(VF, "if overflowing:\n    for handler in [target for append in overflowing for target in append.get_target_override_targets()]:\n        visit(handler, symbol, 0)\nelse:\n    aux(state, symbol, 0)") and \
+        model.has(VF, "if (state, 0) in visited:\n    raise IllegalDFAStateError($$m, transition)")
     rep.check(bool(okd2), "C04.d2", VF, "a consuming transition carrying an appended match starts a walk at the append's handler(s), for the transition's symbols",
               "an append that overflows stores its out-of-space target and re-dispatches WITHOUT consuming the byte, but the cycle check only walks non-consuming transitions: "
               "`loop { try { s += /./; } catch (outofspace) { } }` is accepted and feed() spins once the buffer is full")
-    rep.check(bool(okmr), "C04.d2", VF + ".makes_room", "only a step that deletes every overflowing buffer is not crossed (the idiom `catch (outofspace) { delete s; }` stays legal)",
-              "which steps end the walk of an overflowing append changed: anything weaker than deleting that very buffer leaves it full, and the append overflows again")
+    # d5 (F-118): how much room the handler makes is followed along the walk
+    rep.rule("C04.d5", "room accounting of the cycle check: a step makes room only through an action performed whatever the outputs hold (a delete or a constant assignment that is "
+                       "not under an if), by the usable size minus what the assignment stores; every character appended behind it takes one byte again; the append that did not "
+                       "fit is a cycle exactly when the walk is back at it with no room; another appended match into the still full buffer hands the byte on to its own handler")
+    rb = model.functions.get(VF + ".room_behind")
+    if rb is None:
+        mr = model.functions.get(VF + ".makes_room")
+        rep.bad("C04.d5", VF, "room known behind a step",
+                "a step counts as making room as soon as any sub-action - also one under an if, also one followed by appends that fill the buffer again - deletes the buffer"
+                + (f" (`{ast.unparse(mr.body[-1])[:140]}`)" if mr is not None else "") + ", and a constant assignment never does: `catch (outofspace) { if c == 1 { delete s; } }` and "
+                "`catch (outofspace) { delete s; s += [65]; s += [66]; }` (str[3]) are accepted and feed() spins; `catch (outofspace) { s = \"\"; }` is refused below -O2 and accepted above")
+    else:
+        RB = VF + ".room_behind"
+        rsrc = ast.unparse(rb)
+        loop = [n for n in rb.body if isinstance(n, ast.For)]
+        top_level = len(loop) == 1 and ast.unparse(loop[0].iter) == "step.actions" and isinstance(loop[0].target, ast.Name)
+        act = loop[0].target.id if top_level else "action"
+        makes = [n for n in ast.walk(rb) if isinstance(n, ast.Assign) and ast.unparse(n.targets[0]) == rb.args.args[1].arg and not isinstance(n.value, ast.Call)]
+        rep.check(top_level and model.has(RB, f"if isinstance({act}, DeleteBuf) and {act}.into_storage is storage:\n    room = capacity\nelif isinstance({act}, SetToStr) and {act}.into_storage is storage:\n"
+                                              f"    room = capacity - len({act}.value_expr)\nelse:\n    room -= sum((1 for sub in {act}.all_subactions() if isinstance(sub, AppendCharTo) and sub.into_storage is storage))"),
+                  "C04.d5", RB, "room is made by a top-level delete (usable size) / constant assignment (usable size - length) of that buffer only; appended characters, also conditional ones, take a byte each",
+                  f"room accounting changed: `{rsrc[:400]}` - a delete under an if is not performed for every value of the outputs; an assignment that fills the buffer makes no room; "
+                  "characters appended behind the delete fill it again")
+        rep.check(ast.unparse(rb.body[-1]) == "return max(room, 0)", "C04.d5", RB, "room never goes below none", "the room behind a step is no longer clamped at zero: (state, 0) is never revisited")
+        rep.check(model.has(VF, "capacity = storage.effective_string_size() if storage is not None and storage.holds_a(OutputStorageType.STR) else 1 << 30"), "C04.d5", VF,
+                  "the room a delete makes is the usable size (terminator reserved)", "the capacity the room accounting starts from is not the usable size of the string: an assignment of "
+                  "size-1 characters to a terminated string leaves no room, yet counts as making some")
+        rep.check(model.has(VF, "storage = overflowing[0].into_storage if overflowing and all((append.into_storage is overflowing[0].into_storage for append in overflowing)) else None"), "C04.d5", VF,
+                  "room is only accounted for one buffer: the one every overflowing append of the transition writes", "the buffer the room accounting follows changed")
+        rep.check(model.has(AUX, "if real_target and (not steps) and overflowing and (room == 0):\n    for append in (sub for action in real_target.actions for sub in action.all_subactions() if isinstance(sub, AppendTo) and sub.into_storage is storage):\n"
+                                 "        for handler in append.get_target_override_targets():\n            visit(handler, symbol, room)"), "C04.d5", AUX,
+                  "an appended match into the same, still full buffer met on the way hands the byte to its own handler (walked, byte unconsumed)",
+                  "a consuming transition that appends to the buffer that is still full ends the walk although it leaves for its own out-of-space handler with the byte unconsumed: "
+                  "`try { s += \"a\"; \"x\"; } catch (outofspace) { try { s += \"a\"; \"y\"; } catch (outofspace) { } }` in a loop spins")
 
     # d3 (F-78): a matched `end` pattern consumes nothing - end() goes on from its target with end-of-input still ahead
     rep.rule("C04.d3", "the cycle check treats a transition that lists End as a non-consuming step for end-of-input (end() re-dispatches after a matched `end` pattern)")
     sip = model.functions.get("DfaCompileCtx._verify_fallthrough_loop.stays_in_place")
     ok = "end" in start_kinds and sip is not None and \
         ast.unparse(sip.body[-1]) in ("return t.is_fallthrough or (symbols == [DFTransition.End] and DFTransition.End in t.on_values)",
-                                      "return t.is_fallthrough or (symbols == [DFTransition.End] and DFTransition.End in t.on_values and (not t.error_handling))") and "real_target = x[symbols]" in asrc
+                                      "return t.is_fallthrough or (symbols == [DFTransition.End] and DFTransition.End in t.on_values and (not t.error_handling))") and ("real_target = x[symbols]" in asrc or "real_target = x[symbol]" in asrc)
     redispatch = any(isinstance(n, ast.Constant) and n.value == "goto repeatswitch;" for n in ast.walk(model.func("CodegenCtx._generate_end_switch_body")))
     esb = ast.unparse(model.func("CodegenCtx._generate_end_switch_body"))
     cg_nonerr = "matched_end_pattern = DFTransition.End in unconditional_end_transition.on_values and (not unconditional_end_transition.error_handling)" in esb
